@@ -132,13 +132,21 @@ def same(a, b):
     return okey(a) == okey(b)
 
 
+HM = ["P 21/c"]          # the Hermann-Mauguin symbol of the model block (a CIF symbol keeps every part: `P 1 21/c 1` is `P121/c1`)
+HM_CLASSES = ("P 1 21/c 1", "P 3 2 1", "P 1", "F m -3 m", "P -1", " P 63/m m c ")
+
+
+def hm_joined():
+    return "".join(HM[0].split())
+
+
 def cif_block(adp_types, multi, with_type_loop=True, with_occ=True):
     """a two-site block; site k has the given ADP type; the anisotropic loop lists the sites in REVERSE order"""
     labels = ["Fe1", "O2"]
     blk = {}
     for k_, a_ in zip(CELL_KEYS, ("ca", "cb", "cc", "cal", "cbe", "cga")):
         blk[k_] = txt(a_, "3")
-    blk["_symmetry_space_group_name_H-M"] = "P 21/c"
+    blk["_symmetry_space_group_name_H-M"] = HM[0]
     blk["_atom_site_label"] = list(labels)
     blk["_atom_site_type_symbol"] = ["Fe", "o"]
     for ax in "xyz":
@@ -244,7 +252,7 @@ def run(ctx):
                               "site %d: add_atom(%s=...) receives %s ; the file's value is %s" % (k, field, okey(got), okey(want)), where,
                               sample={"scenario": tag, "field": field, "value": okey(got)} if (tag, field, k) in (("Bani/none", "adp", 0), ("Uiso/new", "symmulti", 0)) else None)
             if multi == "none":
-                okm = len(mlog) == 2 and all(len(a_) >= 2 and same(a_[0], [val("x%d" % k), val("y%d" % k), val("z%d" % k)]) and a_[1] == "P21/c"
+                okm = len(mlog) == 2 and all(len(a_) >= 2 and same(a_[0], [val("x%d" % k), val("y%d" % k), val("z%d" % k)]) and a_[1] == hm_joined()
                                              for k, (a_, _kw) in enumerate(mlog)) \
                     and all(same(atoms[k].attrs.get("symmulti"), Rat.atom("mult#%d" % (k + 1))) for k in range(2))
                 ctx.check(okm, "C17:cif:%s:symmulti" % tag,
@@ -253,7 +261,7 @@ def run(ctx):
                 al = r.atomlist.attrs
                 ctx.check(same(al.get("cell"), [val(a_) for a_ in ("ca", "cb", "cc", "cal", "cbe", "cga")]), "C17:cif:%scell" % pre,
                           "cell is %s" % okey(al.get("cell")), where)
-                ctx.check(al.get("sgname") == "P21/c", "C17:cif:%ssgname" % pre,
+                ctx.check(al.get("sgname") == hm_joined(), "C17:cif:%ssgname" % pre,
                           "space-group symbol is %s, not the H-M symbol with white space removed" % okey(al.get("sgname")), where)
                 disp = al.get("dispersion")
                 okp = isinstance(disp, dict) and set(disp) == {"O", "FE"} and same(disp["O"], [val("fpO"), val("fppO")]) \
@@ -298,6 +306,22 @@ def run(ctx):
         ctx.note("abstract CIF run not possible (%s): the CIF rules are decided on the spelled-out blocks only" % e)
         ctx.not_decided.append("CIF numbers in spellings other than the %d representative ones (the reader inspects the characters of a number)" % len(SPELLINGS))
         SPELL[0] = "exponent"          # the remaining CIF rules (defaults, unreadable entries, block choice) on spelled blocks too
+    # the classes of Hermann-Mauguin symbols: full symbols with lone `1` parts (a CIF keeps them: only white space goes), two- and
+    # four-part symbols, surrounding blanks -- the stored symbol, and the symbol multiplicity() is asked with
+    ctx.rule("symbol", "CIFread on the model block with each class of H-M symbol: the stored symbol and the symbol handed to "
+                       "multiplicity are the file's symbol with white space removed, nothing else")
+    keep_spell = SPELL[0]
+    if SPELL[0] is None:
+        SPELL[0] = "plain"
+    try:
+        for sym in HM_CLASSES:
+            HM[0] = sym
+            scenario(None, "new", "symbol:%s:" % "".join(sym.split()))
+            scenario("Bani", "none", "symbol:%s:" % "".join(sym.split()))
+            nsc += 2
+    finally:
+        HM[0] = "P 21/c"
+        SPELL[0] = keep_spell
     ctx.extra["cif_scenarios"] = nsc
     # no atom-type loop / unreadable dispersion / no occupancy column
     r = Reader(mod, [])
